@@ -24,7 +24,7 @@ ASSUMPTIONS = ["Redis and RabbitMQ are wire-level fakes", "virtual time; slack a
                "'completed' = a terminal disposition took effect at the broker; an actor that finished but whose ack was cut off and whose message went back is ordinary at-least-once redelivery",
                "process death = both wire directions cut and every task of the process cancelled; judged from server state only"]
 EVAL_COUNTER = "injections_judged"
-REQUIRED = ["injections_judged", "stop_injections", "death_injections", "limit_stops", "messages_classified", "inflight_at_injection", "phase_actor_body", "phase_broker_call", "recoveries_checked", "stops_with_open_health_connections", "recoveries_with_a_foreign_long_running_message_in_flight"]
+REQUIRED = ["injections_judged", "stop_injections", "death_injections", "limit_stops", "messages_classified", "inflight_at_injection", "phase_actor_body", "phase_broker_call", "recoveries_checked", "stops_with_open_health_connections", "recoveries_with_a_foreign_long_running_message_in_flight", "recoveries_with_a_rival_poller_on_the_queue"]
 CASE_TIMEOUT = 600
 SHARD_TIMEOUT = {"quick": 1200, "thorough": 3600}
 EXEC_TIMEOUT = 20.0
@@ -50,7 +50,7 @@ def gen_cases(tier, seed):
                 for part in range(parts):
                     # every second scenario: execution timeouts of a day and 20 s (recovery "not before" over days)
                     cases.append(dict(base, fault="death", graceful=3.0, sample=0.01 if tier == "quick" else 0.05, part=part, parts=parts,
-                                      exec_timeout=86420.0 if i % 2 == 1 else EXEC_TIMEOUT, bystander=(kind == "redis" and part % 2 == 0)))
+                                      exec_timeout=86420.0 if i % 2 == 1 else EXEC_TIMEOUT, bystander=(kind == "redis" and part % 2 == 0), rival=(kind == "redis" and part % 2 == 1)))
             # stop by message limit: the stop instant is set by completions, so vary M, durations and latency instead of the step
             for M in ((1, 2) if tier == "quick" else (1, 2, 3)):
                 cases.append(dict(base, fault="limit", graceful=rnd.choice([0.0, 0.5, 3.0]), M=M, sample=0, part=0, parts=1))
@@ -118,6 +118,7 @@ async def scenario(loop, case, inject_step, info):
     kind = case["kind"]
     w = World(loop, kind, converter="basic", seed=case["seed"], latency=case["latency"])
     hc_clients, hc_task = [], None
+    rival_task = None
     try:
         await w.open()
         r = w.router(retry_policy=lambda retry_number=1: timedelta(seconds=0.5))
@@ -137,6 +138,23 @@ async def scenario(loop, case, inject_step, info):
             await asyncio.wait_for(by_cons.consume(), 5.0)
             info["bystander_holds"] = True
             await asyncio.sleep(2.2)
+        if case.get("rival"):
+            # another process polls the same queue and hands back at once whatever it gets (a worker that is being drained):
+            # it races the worker's consumer for every message, and dies with nothing worth mentioning in its hands
+            from repid.message import MessageCategory as _MC2
+
+            rv_conn = w.rig.make_connection("rival")
+            await rv_conn.connect()
+            rv_cons = rv_conn.message_broker.get_consumer("default", None, 1, _MC2.NORMAL)
+
+            async def rival_loop():
+                await rv_cons.start()
+                while True:
+                    key_, _pl, _pr = await rv_cons.consume()
+                    info["rival_takes"] = info.get("rival_takes", 0) + 1
+                    await rv_conn.message_broker.reject(key_)
+
+            rival_task = loop.create_task(rival_loop())
         ids = []
         for i, j in enumerate(case["jobs"]):
             id_ = f"j{i}"
@@ -317,6 +335,8 @@ async def scenario(loop, case, inject_step, info):
                 rec["late"] = late1
                 rec["snapshot_after"] = w.rig.snapshot()
     finally:
+        if rival_task is not None and not rival_task.done():
+            rival_task.cancel()
         if hc_task is not None and not hc_task.done():
             hc_task.cancel()
         for _, wr in hc_clients:
@@ -499,6 +519,9 @@ def run_case(case):
         rec = info.get("recovery")
         if rec is not None and case["kind"] == "redis":
             stats["recoveries_checked"] += 1
+            if case.get("rival"):
+                stats["recoveries_with_a_rival_poller_on_the_queue"] += 1
+                stats["rival_takes"] += info.get("rival_takes", 0)
             if info.get("bystander_holds"):
                 stats["recoveries_with_a_foreign_long_running_message_in_flight"] += 1
                 if rec["snapshot_after"].get("by0") != ["held"]:
